@@ -96,7 +96,7 @@ func (c *Client) pickHost() *Host {
 	s := c.sim
 	var cands []*Host
 	for _, h := range s.hosts {
-		if h.up && !h.stopped && h.started && (h.role != roleWitness || h.initial || s.src.Chance(1, 10)) {
+		if h.up && !h.stopped && !h.removed && h.started && s.shardLoaded(h) && (h.role != roleWitness || h.initial || s.src.Chance(1, 10)) {
 			cands = append(cands, h)
 		}
 	}
